@@ -37,7 +37,7 @@ def gen_cases(ctx):
     return cases
 
 
-def observe(case):
+def _observe(case):
     import jax
     import jax.numpy as jnp
     import numpy as np
@@ -102,6 +102,12 @@ def observe(case):
             rec["mons"].append({"name": f"record {dn}.{k} differs between complex and real storage", "d": Y.scaled(Y.rel_dev(c, r, scale)), "two": True})
     rec["nonzero"] = bool(np.max(np.abs(Er)) > 0 and all(np.max(np.abs(Dr[dn][k])) > 0 for dn in Dr for k in Dr[dn]))
     return rec
+
+
+def observe(case):
+    from harness import yee_sys as Y
+
+    return Y.safe_observe(_observe, case, "complex", TOL)
 
 
 def classify(rec, verdict):
